@@ -253,8 +253,8 @@ def thorough_extras(pid, out=sys.stdout):
             out.write(f"VIOLATION property={pid} replay={rp} rule=witness key={pid}/witness :: a type-level witness no longer behaves as specified: {failed[:2] or w.stdout[-300:]}\n")
             rc = 1
     st = os.path.join(VERIF, "bin", "selftest")
-    if not os.path.exists(st):
-        return rc
+    if not os.path.exists(st) or os.environ.get("VERIF_NO_SELFTEST"):
+        return rc        # (VERIF_NO_SELFTEST=1: only the rules on the thorough configurations + the witnesses; used to sweep all properties quickly)
     r = subprocess.run([st, "--property", pid, "--quiet"], stdout=subprocess.PIPE, stderr=subprocess.STDOUT, text=True)
     tail = r.stdout.strip().splitlines()[-6:]
     out.write(f"[{pid}] checker_health (self-test on scratch copies): {'ok' if r.returncode == 0 else 'ATTENTION'}\n")
